@@ -36,12 +36,14 @@ def instance_of(gen: Dict[str, Any], o: Dict[str, Any], k: int) -> Dict[str, Any
 
 
 def main() -> int:
+    replay = os.environ.get("VERIF_REPLAY")
+    # core.Check wipes replays/C07 when it starts: read the replay file first
+    replay_case = core.read_json(__import__("pathlib").Path(replay))["case"] if replay else None
     ck = core.Check("C07", "model_checking")
     suffix = "" if ck.quick else "_thorough"
-    replay = os.environ.get("VERIF_REPLAY")
 
     # M — design level
-    m = ck.model_check("MC_ExprSound", "MC_ExprSound%s.cfg" % suffix, "WellTyped => Eval yields a boolean or IndexError, on every instance", workers=8, timeout=1500)
+    m = None if replay else ck.model_check("MC_ExprSound", "MC_ExprSound%s.cfg" % suffix, "WellTyped => Eval yields a boolean or IndexError, on every instance", workers=8, timeout=1500)
 
     # G
     cases_p = ck.work / "cases.json"
@@ -49,7 +51,7 @@ def main() -> int:
     gen = core.read_json(cases_p)
     n_gen = len(gen["cases"])
     if replay:
-        want = core.read_json(__import__("pathlib").Path(replay))["case"]["tree"]
+        want = replay_case["tree"]
         gen["cases"] = [c for c in gen["cases"] if c["e"] == want]
         if not gen["cases"]:
             raise core.MachineryFailure("the replayed tree is not in the grammar of this tier")
@@ -82,30 +84,49 @@ def main() -> int:
         res = ck.tlc("ExprTrace", what="V: Eval = CPython (S) and the clauses on accepted trees", env={"VERIF_OBS": str(pp)}, cont=True, workers=4, timeout=1500)
         if res.distinct != 2 * len(part):
             raise core.MachineryFailure("TLC consumed %d of %d observations" % (res.distinct // 2, len(part)))
+        # TLC reports one violated invariant per state; the verdict record of that state (computed by the
+        # specification) tells which clauses fail, so that a second failing clause is not hidden by the first.
+        reported = {}
         for v in step_violations(res.stdout):
-            o = part[v["i"] - 1]
-            rec = parse_flat_record(v["v"])
-            inv = v["invariant"]
-            if inv in S_INVARIANTS:
+            reported.setdefault(v["i"], (v["invariant"], parse_flat_record(v["v"])))
+        for i, (first_inv, rec) in sorted(reported.items()):
+            o = part[i - 1]
+            if rec.get("s_bad", 0) != 0 or rec.get("limit_k", 0) != 0 or first_inv in S_INVARIANTS:
                 k = rec.get("s_bad", 0) or rec.get("limit_k", 0)
                 raise core.MachineryFailure(
                     "S phase: Expr!Eval and CPython disagree (%s) on `%s`, instance #%s %s: spec %r, python %r"
-                    % (inv, o["src"], k, json.dumps(instance_of(gen, o, k))[:300], rec.get("s_spec"), o["py"][k - 1] if 0 < k <= len(o["py"]) else None)
+                    % (first_inv, o["src"], k, json.dumps(instance_of(gen, o, k))[:300], rec.get("s_spec"), o["py"][k - 1] if 0 < k <= len(o["py"]) else None)
                 )
-            if inv in CLAUSE_FIELDS:
-                fk, fc, fd = CLAUSE_FIELDS[inv]
-                k, construct, operands = rec[fk], rec[fc], rec[fd]
-            else:  # Inv_YieldsBoolean
-                k, construct, operands = rec["bool_k"], ("term" if rec["root"] in TERM_ROOTS else "junction" if rec["root"] in ("and", "or", "imp") else rec["root"]), rec["root"] + "->" + rec["bool_t"]
-            key = {"clause": inv, "construct": construct}
-            inst = instance_of(gen, o, k)
-            ck.violation(
-                key,
-                inv,
-                {"invariant": o["src"], "tree": o["e"], "instance": inst},
-                {"accepted": True, "python_result": o["py"][k - 1], "operands": operands, "instance_index": k},
-                detail="accepted invariant `%s` on %s -> %s (%s: %s)" % (o["src"], json.dumps({p: X_short(x) for p, x in inst.items()}), o["py"][k - 1], construct, operands),
-            )
+            if not o["acc"]:
+                raise core.MachineryFailure("TLC reported a clause for a tree that was not accepted: %s" % o["src"])
+            failing = []
+            for inv, (fk, fc, fd) in CLAUSE_FIELDS.items():
+                if rec[fk] != 0:
+                    failing.append((inv, rec[fk], rec[fc], rec[fd]))
+            if rec["bool_k"] != 0:
+                failing.append(("Inv_YieldsBoolean", rec["bool_k"], "term" if rec["root"] in TERM_ROOTS else "junction" if rec["root"] in ("and", "or", "imp") else rec["root"], rec["root"] + "->" + rec["bool_t"]))
+            if first_inv not in [f[0] for f in failing]:
+                raise core.MachineryFailure("verdict record and reported invariant disagree: %s vs %s" % (first_inv, rec))
+            for inv, k, construct, operands in failing:
+                key = {"clause": inv, "construct": construct}
+                inst = instance_of(gen, o, k)
+                ck.violation(
+                    key,
+                    inv,
+                    {"invariant": o["src"], "tree": o["e"], "instance": inst},
+                    {"accepted": True, "python_result": o["py"][k - 1], "operands": operands, "instance_index": k},
+                    detail="accepted invariant `%s` on %s -> %s (%s: %s)" % (o["src"], json.dumps({p: X_short(x) for p, x in inst.items()}), o["py"][k - 1], construct, operands),
+                )
+    # negative control of the binding (thorough tier): a corrupted CPython observation must be rejected by TLC
+    if not ck.quick and not replay:
+        o = next(o for o in obs if o["acc"] and o["py"] and o["py"][0].startswith("bool:"))
+        bad = {"id": o["id"], "e": o["e"], "acc": o["acc"], "py": [("bool:0" if o["py"][0] == "bool:1" else "bool:1")] + o["py"][1:]}
+        pp = ck.work / "obs_negctl.json"
+        core.write_json(pp, [bad])
+        res = ck.tlc("ExprTrace", what="negative control: a flipped CPython result is rejected", env={"VERIF_OBS": str(pp)}, cont=True, workers=1, timeout=600, count=False)
+        if not any(v["invariant"] == "Inv_SpecMatchesPython" for v in step_violations(res.stdout)):
+            raise core.MachineryFailure("negative control: TLC did not reject a corrupted observation")
+
     # totals from the verdict records are not printed for passing states; recompute cheaply from python codes (S guarantees equality)
     for o in obs:
         for c in o["py"]:
@@ -126,7 +147,7 @@ def main() -> int:
     ck.cov["strata"] = strata
     ck.cov["rejection_stages"] = stages
     ck.cov["results"] = {"boolean": n_fine, "index_error": n_index, "other": n_eval - n_fine - n_index}
-    ck.cov["welltyped_trees_model_checked"] = m.distinct
+    ck.cov["welltyped_trees_model_checked"] = m.distinct if m is not None else 0
     pick = [o for o in obs if o["acc"]][:2] + [o for o in obs if not o["acc"]][:1]
     ck.cov["samples"] = [{"invariant": o["src"], "accepted": o["acc"], "stage": o["stage"], "python_results": o["py"][:6]} for o in pick]
     ck.assumptions += [
@@ -134,7 +155,7 @@ def main() -> int:
         "'accepts' = run.load_model accepts the model AND intermediate.type_inference.infer_for_invariant succeeds AND --target python exits 0 (DESIGN §6 C07)",
         "instances are plain objects with the declared property values (None only where Optional); plain-object identity equality as for the generated SDK classes",
     ]
-    if nontrivial == 0 or strata["mistyped_rejected"] == 0:
+    if not replay and (nontrivial == 0 or strata["mistyped_rejected"] == 0):
         raise core.MachineryFailure("vacuous run: %s" % strata)
     return ck.finish()
 
